@@ -43,7 +43,7 @@ func optDims(cfg Config, withAlgs bool) []string {
 	return d
 }
 
-func makeOpt(cfg Config, dim string) rp.VerifierOption {
+func makeOpt(cfg Config, dim string, h handed) rp.VerifierOption {
 	switch dim {
 	case "offset":
 		return rp.WithIssuedAtOffset(time.Duration(cfg.OffsetS) * time.Second)
@@ -66,17 +66,24 @@ func makeOpt(cfg Config, dim string) rp.VerifierOption {
 		}
 		return rp.WithNonce(nil)
 	case "acr":
+		if h.acr != nil {
+			// a sub-slice of the caller's list of levels, handed over as it is
+			return rp.WithACRVerifier(oidc.DefaultACRVerifier(h.acr))
+		}
 		return rp.WithACRVerifier(oidc.DefaultACRVerifier(cfg.ACR))
 	case "algs":
+		if h.algs != nil {
+			return rp.WithSupportedSigningAlgorithms(h.algs...)
+		}
 		return rp.WithSupportedSigningAlgorithms(cfg.Algs...)
 	}
 	panic("unknown option dimension " + dim)
 }
 
-func optsOf(cfg Config, withAlgs bool) []rp.VerifierOption {
+func optsOf(cfg Config, withAlgs bool, h handed) []rp.VerifierOption {
 	var opts []rp.VerifierOption
 	for _, dim := range optDims(cfg, withAlgs) {
-		opts = append(opts, makeOpt(cfg, dim))
+		opts = append(opts, makeOpt(cfg, dim, h))
 	}
 	return opts
 }
@@ -154,6 +161,7 @@ func mod(a, n int) int {
 // kept slice describes after the writes that follow the construction of the first (equal to cfgs[1] for Second=inner).
 type plan struct {
 	cfgs   []Config
+	srcs   [][2]int // per verifier: which configuration's acr / algs policy it holds (sourcesOf)
 	now    Config
 	writes int
 }
@@ -165,13 +173,16 @@ func planOf(c Case) plan {
 	}
 	wa := withAlgsOpt(c)
 	refs := refsOf(c.Cfg, wa, false)
+	p.srcs = append(p.srcs, sourcesOf(c, refs))
 	p.writes = writeRefs(refs, optDims(c.Reuse.Other, wa), c.Reuse.Writes)
 	p.now = effective(c, refs)
 	switch secondOf(c) {
 	case "inner":
 		p.cfgs = append(p.cfgs, p.now)
+		p.srcs = append(p.srcs, sourcesOf(c, refs))
 	case "outer":
 		p.cfgs = append(p.cfgs, effective(c, refsOf(c.Reuse.Other, wa, true)))
+		p.srcs = append(p.srcs, sourcesOf(c, refsOf(c.Reuse.Other, wa, true)))
 	}
 	return p
 }
@@ -217,6 +228,11 @@ func genReuse(t *rapid.T, c *Case) *ReuseSpec {
 	r.Spare = rapid.SampledFrom([]int{0, 0, 1, 4}).Draw(t, "spare")
 	r.Writes = genWrites(t, 0)
 	r.Second = rapid.SampledFrom([]string{"", "inner", "inner", "outer"}).Draw(t, "second")
+	if rapid.Bool().Draw(t, "vals") {
+		// the []string inside the options are the caller's too: sub-slices of one list (vals_test.go)
+		r.Vals = genVals(t)
+		derive(&c.Cfg, &r.Other, r.Vals)
+	}
 	return r
 }
 
@@ -251,21 +267,27 @@ type keep struct {
 	inner     []rp.VerifierOption // handed to rp.NewIDTokenVerifier / rp.WithVerifierOpts
 	outer     []rp.Option         // handed to rp.NewRelyingPartyOIDC
 	otherOpts []rp.VerifierOption
+	lists     *lists // the caller's []string lists the policies are built from (Case.Reuse.Vals)
 }
 
 func newKeep(c Case) *keep {
-	base := optsOf(c.Cfg, withAlgsOpt(c))
-	k := &keep{}
+	k := &keep{lists: newLists(valsOf(c))}
+	base := optsOf(c.Cfg, withAlgsOpt(c), k.lists.handed(0))
 	spare := 0
 	if c.Reuse != nil {
 		spare = c.Reuse.Spare
-		k.otherOpts = optsOf(c.Reuse.Other, withAlgsOpt(c))
 	}
 	if len(base) > 0 || spare > 0 {
 		k.inner = make([]rp.VerifierOption, len(base), len(base)+spare)
 		copy(k.inner, base)
 	}
 	return k
+}
+
+// buildOther: the caller goes on to its next configuration and builds its options (after the first construction).
+func (k *keep) buildOther(c Case) {
+	k.lists.handOther(valsOf(c))
+	k.otherOpts = optsOf(c.Reuse.Other, withAlgsOpt(c), k.lists.handed(1))
 }
 
 // overwrite: the caller writes into its own slice.
@@ -287,5 +309,5 @@ func reuseKey(c Case) string {
 	if len(p.cfgs) > 1 {
 		s += "|second=" + cfgKey(p.cfgs[1])
 	}
-	return s + "]"
+	return s + valsKey(c) + "]"
 }
